@@ -10,7 +10,8 @@ import time
 
 VERIF = os.path.dirname(os.path.dirname(os.path.dirname(os.path.abspath(__file__))))
 REPO = os.environ.get("QLINT_REPO", "/repo")
-OUT = os.path.join(VERIF, "out")
+OUT = os.environ.get("QLINT_OUT") or os.path.join(VERIF, "out")
+EVIDENCE_DIR = os.environ.get("QLINT_EVIDENCE_DIR") or os.path.join(VERIF, "evidence")
 DRIVER = os.path.join(VERIF, "engine", "mirx", "target", "release", "mirx")
 REQUIRED_CRATES = ["qbase", "qrecovery", "qcongestion", "qconnection", "qdatagram", "qinterface", "qevent",
                    "qtraversal", "dquic"]
@@ -246,8 +247,8 @@ def finish(ctx, t0, extract_info, level_text, not_decided):
         "wall_s": round(time.time() - t0, 2),
         "violations": len(new),
     }
-    os.makedirs(os.path.join(VERIF, "evidence"), exist_ok=True)
-    json.dump(ev, open(os.path.join(VERIF, "evidence", ctx.pid + ".json"), "w"), indent=1)
+    os.makedirs(EVIDENCE_DIR, exist_ok=True)
+    json.dump(ev, open(os.path.join(EVIDENCE_DIR, ctx.pid + ".json"), "w"), indent=1)
     sys.stdout.write("%s [%s]: %d obligations, %d discharged, %d known finding(s), %d new violation(s); %d functions; %.1fs\n"
                      % (ctx.pid, ctx.tier, len(ctx.obs), len(ctx.obs) - len(viol), len(old), len(new),
                         len(ctx.functions), time.time() - t0))
